@@ -20,7 +20,7 @@ DRIVER = 'C08'
 REQUIRED = ['Ems.C08.crop_get', 'Ems.C08.where_get', 'Ems.C08.grid_clip_spec', 'Ems.C08.fill_decision_table',
             'Ems.C08.unmaskable_never_altered', 'Ems.C08.selectRows_get', 'Ems.C08.governing_first',
             'Ems.C08.empty_mask_refused', 'Ems.C08.trueBounds_spec', 'Ems.C08.nothing_outside_survives',
-            'Ems.C08.keptRows_spec', 'Ems.C08.meshRows_passthrough', 'Ems.C08.clip_end_to_end']
+            'Ems.C08.keptRows_spec', 'Ems.C08.meshRows_passthrough', 'Ems.C08.clip_end_to_end', 'Ems.C08.mesh_clip_end_to_end']
 RULE = ('datasets of every convention (coordinates as xarray coordinates or plain variables; meshes with every subset of '
         'the optional connectivity tables, 0/1-based, NaN / _FillValue / no fill) with tagged variables: float, int '
         'without fill, int with _FillValue / missing_value, on faces / edges / nodes / no grid, dimensions in random '
